@@ -231,6 +231,7 @@ def lane_chunk(args):
             plan = spec.gen(rng, tier)
             plan["seed"] = seed
             plan["prop"] = prop
+            plan["tier"] = tier
             t0 = time.monotonic()
             vs, jrs = spec.evaluate(lane, plan)
             res["t_exec"] += time.monotonic() - t0
